@@ -59,6 +59,20 @@ func (g *G) genDoc(did string, auth []int) *didtypes.DIDDocument {
 		if g.chance(fmt.Sprintf("dedicated%d", ki), 25) {
 			vm := mkVM(ki, true)
 			doc.Authentications = append(doc.Authentications, didtypes.NewVerificationRelationshipDedicated(*vm))
+			if g.chance(fmt.Sprintf("shadow%d", ki), 35) {
+				// a top-level method that carries the SAME id as the embedded authentication
+				// method but another key (method ids need not be unique): that key is listed
+				// as a verification method only, never under authentication
+				kj := (ki + 1 + g.intn("shadow-key", 4)) % 6
+				if !containsInt(auth, kj) {
+					sh := mkVM(kj, true)
+					sh.Id = vm.Id
+					doc.VerificationMethods = append(doc.VerificationMethods, sh)
+					if g.chance("shadow-assert", 50) {
+						doc.AssertionMethods = append(doc.AssertionMethods, didtypes.NewVerificationRelationship(vm.Id))
+					}
+				}
+			}
 		} else {
 			doc.VerificationMethods = append(doc.VerificationMethods, mkVM(ki, false))
 			doc.Authentications = append(doc.Authentications, didtypes.NewVerificationRelationship(vmID(did, ki, false)))
@@ -110,7 +124,11 @@ func (g *G) authKeysOf(doc *didtypes.DIDDocument) (auth [][2]interface{}, others
 	for _, vm := range doc.VerificationMethods {
 		byID[vm.Id] = vm
 	}
-	listed := map[string]bool{}
+	type pair struct {
+		ki int
+		id string
+	}
+	listed := map[pair]bool{}
 	for _, rel := range doc.Authentications {
 		vm := rel.GetVerificationMethod()
 		if vm == nil {
@@ -119,19 +137,26 @@ func (g *G) authKeysOf(doc *didtypes.DIDDocument) (auth [][2]interface{}, others
 		if vm == nil {
 			continue
 		}
-		listed[vm.Id] = true
 		if ki := find(vm.PublicKeyBase58); ki >= 0 {
+			listed[pair{ki, vm.Id}] = true
 			auth = append(auth, [2]interface{}{ki, vm.Id})
 		}
 	}
 	for _, vm := range doc.VerificationMethods {
-		if !listed[vm.Id] {
-			if ki := find(vm.PublicKeyBase58); ki >= 0 {
-				others = append(others, [2]interface{}{ki, vm.Id})
-			}
+		if ki := find(vm.PublicKeyBase58); ki >= 0 && !listed[pair{ki, vm.Id}] {
+			others = append(others, [2]interface{}{ki, vm.Id})
 		}
 	}
 	return
+}
+
+func containsInt(xs []int, x int) bool {
+	for _, v := range xs {
+		if v == x {
+			return true
+		}
+	}
+	return false
 }
 
 func (g *G) someAuthSet() []int {
@@ -395,7 +420,22 @@ func (g *G) proof(against *didtypes.DIDDocument, authKeys []int, content []byte,
 func (g *G) otherDID(did string, pool []string) string {
 	const p = "did:panacea:"
 	body := strings.TrimPrefix(did, p)
-	switch g.weighted("other-did-kind", "pool", 5, "truncated", 3, "extended", 2) {
+	switch g.weighted("other-did-kind", "pool", 5, "truncated", 3, "extended", 2, "case", 3) {
+	case "case":
+		// base58 is case sensitive: flipping the case of a letter yields another valid DID
+		var at []int
+		for i := 0; i < len(body); i++ {
+			c := body[i]
+			if (c >= 'a' && c <= 'z' || c >= 'A' && c <= 'Z') && !strings.ContainsRune("oOiIlL", rune(c)) {
+				at = append(at, i)
+			}
+		}
+		if len(at) > 0 {
+			i := at[g.intn("case-at", len(at))]
+			b := []byte(body)
+			b[i] ^= 0x20
+			return p + string(b)
+		}
 	case "truncated":
 		if len(body) > 32 {
 			return p + body[:32+g.intn("cut", len(body)-32)]
